@@ -34,4 +34,5 @@ finally:
     subprocess.run(["git", "-C", "/repo", "worktree", "remove", "--force", wt])
     # restore evidence (and generated files) from the real tree
     for p in props:
-        subprocess.run([os.path.join(V, "check.sh"), p, "quick"], capture_output=True, text=True, cwd=V)
+        if os.environ.get("SEEDTEST_NO_RESTORE") != "1":   # (a throw-away copy of /verif needs no restoring)
+            subprocess.run([os.path.join(V, "check.sh"), p, "quick"], capture_output=True, text=True, cwd=V)
